@@ -15,8 +15,8 @@ def table():
         m = json.load(open(mp))
         caught = [r["check"] for r in m.get("checks_run", []) if r.get("caught")]
         missed = [r["check"] + (" (inconclusive)" if r.get("exit") == 2 else "") for r in m.get("checks_run", []) if not r.get("caught")]
-        short = (m.get("breaks") or "").replace("\n", " ").replace("|", "/")
-        needs = (m.get("needs_to_manifest") or "").replace("\n", " ").replace("|", "/")
+        short = (m.get("breaks") or m.get("summary") or "").replace("\n", " ").replace("|", "/")
+        needs = (m.get("needs_to_manifest") or m.get("needs") or "").replace("\n", " ").replace("|", "/")
         note = " " + m["note_after_fix"] if m.get("note_after_fix") else ""
         rows.append("| %s | %s | %s | %s | %s |" % (os.path.basename(d), short[:220] + ("..." if len(short) > 220 else ""),
                                                needs[:160] + ("..." if len(needs) > 160 else ""),
@@ -24,6 +24,20 @@ def table():
     return "\n".join(rows)
 
 
+
+
+def merge_results(resdir="/tmp/seedres"):
+    """Merge the outcomes written by seedtest2.sh into the seeds' meta.json files."""
+    for f in sorted(glob.glob(os.path.join(resdir, "*.json"))):
+        r = json.load(open(f))
+        mp = os.path.join(ROOT, "seeded", r["seed"], "meta.json")
+        if not os.path.exists(mp):
+            continue
+        m = json.load(open(mp))
+        runs = [x for x in m.get("checks_run", []) if x.get("check") != r["entry"]["check"]]
+        runs.append(r["entry"])
+        m["checks_run"] = runs
+        json.dump(m, open(mp, "w"), indent=1)
 
 
 def refresh_design():
@@ -37,6 +51,8 @@ def refresh_design():
 
 if __name__ == "__main__":
     import sys
+    if "--merge" in sys.argv:
+        merge_results()
     if "--design" in sys.argv:
         refresh_design()
     else:
